@@ -7,5 +7,5 @@ unset GOSUMDB
 mkdir -p "$ROOT/bin" "$ROOT/evidence"
 cd "$ROOT/harness"
 cp /repo/go.sum go.sum
-go build -tags verif -o "$ROOT/bin/" ./cmd/...
+go build -trimpath -tags verif -o "$ROOT/bin/" ./cmd/...
 ls "$ROOT/bin"
